@@ -1,4 +1,5 @@
 import BromeliaVerif.Drv.Util
+import BromeliaVerif.Model.Worker
 import BromeliaVerif.Gen.Dictionary
 import BromeliaVerif.Model.Parse
 import BromeliaVerif.Spec.Rfc6733
@@ -162,6 +163,12 @@ def opCodec : List String → Option String
     | .ok ms => some ("ok " ++ " | ".intercalate (ms.map fun m =>
         hdrStr m.hdr ++ " " ++ toString m.avps.length ++ String.join (m.avps.map fun a => " " ++ lavpStr a) ++ " R " ++ toHex m.dump))
     | .error e => some (perr e)
+  | ["wstep", c, h] =>
+    -- one worker iteration: carried bytes, new bytes → alive, lock, carried afterwards, what was enqueued
+    let o := Worker.step Gen.dictionary (parseHex c) (parseHex h)
+    let enq := if o.enqueued.isEmpty then "none" else "ok " ++ " | ".intercalate (o.enqueued.map fun m =>
+        hdrStr m.hdr ++ " " ++ toString m.avps.length ++ String.join (m.avps.map fun a => " " ++ lavpStr a) ++ " R " ++ toHex m.dump)
+    some s!"{b01 o.alive} {b01 o.lockHeld} {toHex o.carry} {enq}"
   | _ => none
 
 end BV.Drv
